@@ -443,6 +443,13 @@ silent('s-par11-alias', ['C06', 'C05'], 'the lookup key goes through a local ali
 silent('s-par11-membership', ['C06', 'C05'], 'convert_leaf binds the table to a local first',
        (PYPARSER, "            if value in self._pgen_grammar.reserved_syntax_strings:", "            reserved = self._pgen_grammar.reserved_syntax_strings\n            if value in reserved:"))
 
+# TOK-9 line cut vs f-string closer
+fire('tok9-closer-top-only', ['C02', 'C09'], ['TOK-9'], 'the f-string closer only looks at the innermost f-string',
+     (TOK, "    for fstring_stack_index, node in enumerate(fstring_stack):\n", "    for fstring_stack_index in [len(fstring_stack) - 1]:\n        node = fstring_stack[-1]\n"))
+silent('s-tok9-closer-reversed', ['C02', 'C09'], 'the closer names its loop variables differently',
+       (TOK, "    for fstring_stack_index, node in enumerate(fstring_stack):\n        # Only the tokenizer's own whitespace may end up in a prefix.\n        lstripped_string = string.lstrip(' \\f\\t')\n        len_lstrip = len(string) - len(lstripped_string)\n        if lstripped_string.startswith(node.quote):",
+        "    for i, fnode in enumerate(fstring_stack):\n        # Only the tokenizer's own whitespace may end up in a prefix.\n        lstripped_string = string.lstrip(' \\f\\t')\n        len_lstrip = len(string) - len(lstripped_string)\n        node = fnode\n        fstring_stack_index = i\n        if lstripped_string.startswith(fnode.quote):"))
+
 # TOK-3 typestate
 fire('tok3-comment-drops-prefix', ['C01', 'C09'], ['TOK-3'], 'a comment inside brackets replaces the pending prefix instead of extending it',
      (TOK, "                else:\n                    additional_prefix = prefix + token\n            elif token in triple_quoted:", "                else:\n                    additional_prefix = token\n            elif token in triple_quoted:"))
